@@ -1,5 +1,6 @@
 import DmrVerif.Driver.Loop
+import DmrVerif.Driver.Integrity
 
-/-! model driver for property C04 (stub: no operations registered yet) -/
+/-! model driver for property C04 -/
 
-def main : IO Unit := Dmr.Driver.runMain []
+def main : IO Unit := Dmr.Driver.runMain [Dmr.Driver.integrityOp, Dmr.Driver.crcOp]
